@@ -222,6 +222,17 @@ CHECKS = {
             dict(harness="C16_K4E2", cover=["matches", "empty"], bounds="every 4-symbol relative pattern over {a . * ? /} x 2 entries"),
         ],
     },
+    "C17": {
+        "quick": [
+            dict(harness="C17_Fold1", cover=["unfolded-well-formed", "unfolded-ill-formed"], bounds="alias tables a x b from 14 x 6 values (several tokens, operators, reserved words, assignments, redirections, trailing blanks, chains, cycles) x one command (6 command words incl. quoted/escaped/assignment-prefixed names, 3 arguments) x {bare, if, { }, for}"),
+            dict(harness="C17_Sym", bounds="alias values, command word and two following words are symbolic letters over {a b z/t/x/y/w} with optional trailing blank: all coincidences with the alias names decided by the solver"),
+        ],
+        "thorough": [
+            dict(harness="C17_Fold1", cover=["unfolded-well-formed", "unfolded-ill-formed"]),
+            dict(harness="C17_Fold", cover=["unfolded-well-formed", "unfolded-ill-formed"], bounds="same tables x one or two commands joined by ; | newline"),
+            dict(harness="C17_Sym"),
+        ],
+    },
     "C19": {
         "quick": [
             dict(harness="C19_Option", bounds="all 2^64 Option values"),
@@ -286,6 +297,8 @@ META = {
                 note="histories <= 2 (quick) / 3 (thorough) operations over {Set, Unset, ${n:=w}, ${n:?w}, Eval n=k, Eval n++, plain expansion} x 11 names (+1 symbolic name); os.Environ is an empty stub; $$ is not compared"),
     "C16": dict(text="Glob against a symbolic in-memory file system (names are symbolic bytes, kinds enumerated) returns exactly the paths a reference walker with the C12 reference matcher computes: existence, no duplicates, ascending order, dot-file rule, directories only before a slash, escapes literal, relative results. " + BOUNDED,
                 note="the OS is replaced by the fsmodel package behind os.Lstat/os.Stat/os.Open/Readdirnames (replay materialises the tree on disk and runs the real Glob); trees have one level plus one child per directory, names are 1 byte; absolute patterns and a trailing lone backslash are outside the claim; '.' and '..' are taken to be present in every directory"),
+    "C17": dict(text="Metamorphic check: for every alias table and program of the enumerated families, parsing the folded text with the table gives the same skeleton as parsing the token-level unfolding (POSIX rules: command position, not re-expanded inside its own expansion, next word examined after a trailing blank) without aliases; ill-formed unfoldings are rejected; every table terminates (engine budget). " + BOUNDED,
+                note="programs are short token lists; the unfolding oracle works on blank-separated tokens; alias values containing here-documents and positions are excluded (as in the property); termination for arbitrary tables is also covered by C01_Alias"),
     "C19": dict(text="No panic / non-termination of Pos, End, Fprint (symbolic Config), Expand (symbolic ExpMode and Option), Eval, Match, Glob and Option.String on every feasible path within the bounds; errors are of the documented kinds. " + BOUNDED,
                 note="ASTs come from the parser on bounded inputs (hand-built ASTs are outside); Glob runs against the engine's empty file-system stub; regexp.Compile/regexp matching run natively on concretised patterns/subjects; user.Lookup is a stub that always fails"),
 }
